@@ -80,18 +80,10 @@ Pairs(s) == {<<s[n][1], s[n][2]>> : n \in DOMAIN s}
 ExpectedEqs == (0..(N.n - 1)) \cup (IF N.th THEN {TRow(N)} ELSE {})
 Max2(a, b) == IF a > b THEN a ELSE b
 
-TFinish ==
-  /\ IsEv("Finish")
-  /\ pc \in {"done", "observed"}
-  /\ LET e == Ev IN
-     /\ Chk("NoStrayTerms", e.stray = 0)
-     /\ Chk("OneStatementPerEquation", ToSet(e.eqs) = ExpectedEqs /\ Len(e.eqs) = Cardinality(ExpectedEqs))
-     /\ Chk("WrapperOnThermalRowOnly", ToSet(e.wrapped_rows) = (IF wrappedRow THEN {TRow(N)} ELSE {}))
-     /\ Chk("WrapperOnThermalCellsOnly", Pairs(e.wrapped_cells) = {c \in Pairs(e.cells) : wrappedRow /\ c[1] = TRow(N)})
+(* structural facts of the emitted unit that depend only on the network header and on the text itself (C03) *)
+StructuralClauses(e) ==
      /\ Chk("CellsInRange", Pairs(e.cells) \subseteq Eqs(N) \X Eqs(N))
      /\ Chk("NoCellAssignedTwice", Len(e.cells) = Cardinality(Pairs(e.cells)))
-     /\ Chk("OmittedIsZero", \A c \in DOMAIN jac : jac[c] # EmptyPoly => c \in Pairs(e.cells))
-     /\ Chk("JacobianReadsTheSameAbundancesAsTheRhs", ToSet(e.yarr_jac) \subseteq ToSet(e.yarr_fex))
      /\ Chk("MacroNSPECIES", e.nspecies = N.n)
      /\ Chk("MacroNEQUATIONS", e.neq = NEq(N))
      /\ Chk("MacroNREACTIONS", e.nreac = Max2(Len(N.R), 1))
@@ -108,11 +100,29 @@ TFinish ==
      /\ IF e.has_pattern
           THEN Chk("PatternMarksStoredEntries", Pairs(e.pattern) = Pairs(e.cells) /\ e.pattern_shape_ok)
           ELSE TRUE
+
+TFinish ==
+  /\ IsEv("Finish")
+  /\ pc \in {"done", "observed"}
+  /\ LET e == Ev IN
+     /\ Chk("NoStrayTerms", e.stray = 0)
+     /\ Chk("OneStatementPerEquation", ToSet(e.eqs) = ExpectedEqs /\ Len(e.eqs) = Cardinality(ExpectedEqs))
+     /\ Chk("WrapperOnThermalRowOnly", ToSet(e.wrapped_rows) = (IF wrappedRow THEN {TRow(N)} ELSE {}))
+     /\ Chk("WrapperOnThermalCellsOnly", Pairs(e.wrapped_cells) = {c \in Pairs(e.cells) : wrappedRow /\ c[1] = TRow(N)})
+     /\ Chk("OmittedIsZero", \A c \in DOMAIN jac : jac[c] # EmptyPoly => c \in Pairs(e.cells))
+     /\ Chk("JacobianReadsTheSameAbundancesAsTheRhs", ToSet(e.yarr_jac) \subseteq ToSet(e.yarr_fex))
+     /\ StructuralClauses(e)
+  /\ UNCHANGED ovars
+
+(* "structure" traces (one event): the structural facts alone, so that a term-level mismatch elsewhere cannot hide them *)
+TStructure ==
+  /\ IsEv("Structure")
+  /\ StructuralClauses(Ev)
   /\ UNCHANGED ovars
 
 TSilent == (SkipEmpty \/ Wrap) /\ UNCHANGED <<tid, l>>
 
-TNext == TReaction \/ TModifier \/ THeat \/ TCool \/ TFinish \/ TSilent \/ TObserved
+TNext == TReaction \/ TModifier \/ THeat \/ TCool \/ TFinish \/ TStructure \/ TSilent \/ TObserved
 TSpec == TInit /\ [][TNext]_<<ovars, tid, l>>
 
 (* C04 on the observed, accepted state: weights = what the REAL Species objects report (elements, charge) *)
